@@ -25,6 +25,7 @@ type TierSel struct {
 	Masks    []int    `json:"masks"`    // optimisation subsets (bit k = optimizations[k]); default per relation
 	Costs    []string `json:"costs"`    // cost map pool entries used with Reordering masks
 	MaxPaths int      `json:"maxPaths"` // per unrolling
+	Thorough bool     `json:"-"`
 	Extra    []string `json:"extra"`    // additional source texts
 }
 
@@ -67,6 +68,7 @@ func Run(env *core.Env, p *load.Program, prop string, sel json.RawMessage) (*cor
 		return nil, fmt.Errorf("bounded: no relations selected")
 	}
 	ts := s.tier(env.Tier)
+	ts.Thorough = env.Tier == "thorough"
 	m, err := NewMachine(p)
 	if err != nil {
 		return nil, fmt.Errorf("bounded: %v", err)
@@ -152,6 +154,7 @@ type planned struct {
 	evID  int // id of the companion ReportEvent job (or -1)
 	base  int // id of the job with the empty cost map (same mask), or -1
 	altID int // companion job (no-event form), or -1
+	bnd   *Boundary
 }
 
 type plan struct {
@@ -295,6 +298,37 @@ func newPlan(s *Selection, ts TierSel, srcs []*Src) *plan {
 			}
 		}
 	}
+	if s.has("boundary") {
+		for _, b := range Boundaries(ts.Thorough) {
+			text := b.Src.String()
+			for _, m := range masks {
+				for _, ev := range []bool{false, true} {
+					rels := []string{"boundary"}
+					if b.Nodes < 2000 && !ev {
+						rels = append(rels, "U-if-value", "U-if-AllOK")
+						if m == 0 {
+							rels = append(rels, "eval=LR")
+						}
+					}
+					pc := pl.want(b.Src, Job{Src: text, Mask: m, Ev: ev, Run: true}, rels...)
+					pc.bnd = b
+				}
+			}
+		}
+	}
+	if s.has("redump") {
+		all := append([]*Src{}, srcs...)
+		for _, x := range SpecialLiteralFamily() {
+			all = append(all, x)
+		}
+		for _, src := range all {
+			for _, m := range masks {
+				for _, ev := range []bool{false, true} {
+					pl.want(src, Job{Src: src.String(), Mask: m, Undef: UsesUndef(src), Ev: ev, Redump: true}, "redump")
+				}
+			}
+		}
+	}
 	if s.has("eval=LR.bound") {
 		for _, x := range C10Family {
 			src, err := ParseSrc(x, true)
@@ -309,6 +343,26 @@ func newPlan(s *Selection, ts TierSel, srcs []*Src) *plan {
 		}
 	}
 	return pl
+}
+
+// SpecialLiterals: string contents the lexer accepts (raw text between two
+// double quotes) that need care when printed: space, parentheses, semicolon,
+// backslash, non-ASCII, line break, tab.
+var SpecialLiterals = []string{"a b", "a(b", "a)b", "(", "a;b", `a\b`, `\`, "é", "日本", "a\nb", "a\tb", "", " ", "a'b", "#", "1", "true"}
+
+// SpecialLiteralFamily: sources that carry the special literals as string
+// constants and inside string lists.
+func SpecialLiteralFamily() []*Src {
+	var out []*Src
+	for _, l := range SpecialLiterals {
+		q := `"` + l + `"`
+		out = append(out,
+			N("eq", L("i0"), L(q)),
+			N("and", N("ne", L("i0"), L(q)), L("b0")),
+			N("in", L("i0"), L("("+q+` "x")`)),
+		)
+	}
+	return out
 }
 
 // C10Family: failing constant sub-expressions under and/or/if guards (no
@@ -361,14 +415,33 @@ func (pl *plan) generate(cx *Checker, progs map[int]*XProg) []*core.Obl {
 			if pc.altID >= 0 {
 				c.Alt = progs[pc.altID]
 			}
-			var obls []*core.Obl
-			co := cx.CompileObl(c)
-			obls = append(obls, co)
-			if co.Status != core.Discharged {
+			if pc.bnd != nil {
+				c.Text, c.Full = pc.bnd.Name, pc.job.Src
+				obls := cx.BoundaryObls(c, pc.bnd)
+				if c.Prog.OK() {
+					var c02 []string
+					for _, rel := range pc.rels {
+						switch rel {
+						case "eval=LR":
+							obls = append(obls, cx.EvalLR(c)...)
+						case "U-if-value", "U-if-AllOK":
+							c02 = append(c02, rel)
+						}
+					}
+					if len(c02) > 0 {
+						obls = append(obls, cx.C02(c, c02)...)
+					}
+				}
 				out[i] = obls
 				return
 			}
-			obls = append(obls, cx.WFObl(c))
+			var obls []*core.Obl
+			wf := cx.WFObl(c)
+			obls = append(obls, wf)
+			if !c.Prog.OK() {
+				out[i] = obls
+				return
+			}
 			// a cost map that yields the very program of the empty map adds nothing symbolic
 			sameAsBase := pc.base >= 0 && progs[pc.base].OK() && progs[pc.base].FP == c.Prog.FP
 			var c02 []string
@@ -378,6 +451,8 @@ func (pl *plan) generate(cx *Checker, progs map[int]*XProg) []*core.Obl {
 					obls = append(obls, cx.EvalLR(c)...)
 				case "trace":
 					obls = append(obls, cx.Trace(c)...)
+				case "redump":
+					obls = append(obls, cx.Redump(c)...)
 				case "ev-dump":
 					obls = append(obls, cx.EvDump(c))
 				case "ev=noev":
